@@ -247,7 +247,11 @@ func runSeq(cap *capture, c Case) (res result) {
 	if m.any {
 		wantLines = m.maxLine + 1
 	}
-	checkBuffered(&res, "bufferedterm", bufOut, m, c, wantLines, e)
+	live := e
+	if len(res.findings) > 0 {
+		live = nil // the live screen is already wrong: do not blame the buffered writer for differing from it
+	}
+	checkBuffered(&res, "bufferedterm", bufOut, m, c, wantLines, live)
 
 	// ---- the virtual terminal (line store behind the buffered writer)
 	func() {
@@ -272,7 +276,7 @@ func runSeq(cap *capture, c Case) (res result) {
 		}
 		var bb bytes.Buffer
 		v.WriteToOutput(&bb)
-		checkBuffered(&res, "virtualterm", bb.Bytes(), m, c, wantLines, e)
+		checkBuffered(&res, "virtualterm", bb.Bytes(), m, c, wantLines, live)
 	}()
 
 	// non-trivial: at least two updates, and the history rewrites a line or
